@@ -4,6 +4,23 @@ import "verif/internal/eng"
 
 func init() {
 	register(&Property{
+		ID: "C49",
+		Explanation: "Decides totality (no crash), not exactness: (parser-no-panic) for every parser of user-supplied text — all pflag.Value.Set implementations of the module and the named parsers (ParseDuration, ParseBytes, stringToIntSlice, parsePercentage, options.Parse/Apply, SplitShellStrings, checkFlags, verifyForgetOptions, verifyPruneOptions) — no function in its call closure contains a panic whose operand carries an error value (the `panic(err)` pattern that turns a failed conversion of the input into a crash); frozen exception: options.Apply's developer-error panics on malformed struct tags. This rule reported the genuine defect in data.nextNumber (range error of strconv.Atoi), now fixed; (strconv-errors) the error of every strconv.Parse*/Atoi in the parsers is examined; (bitsize-agreement) the bit size of every ParseInt/ParseUint fits the type its result is converted to, and ParseBytes returns a value only on the high-word==0 and value>=0 edges of its bits.Mul64 product; (apply-exhaustive) every option struct handed to options.Register/Apply has only `option` fields of kinds Apply's switch handles. Not decided: that accepted values denote exactly the parsed number and that durations print back to an equal value.",
+		Assumptions: commonAssumptions,
+		Technique:   "static analysis: call-closure scan for error-carrying panics + bit-size/type agreement + CFG edge cuts (go/ssa)",
+		Run: func(c *eng.Ctx) {
+			ruleParserNoPanic(c)
+			ruleBitsize(c)
+			ruleApplyExhaustive(c)
+		},
+		Controls: []Control{
+			{Name: "atoi-range-error-panics", File: "internal/data/duration.go",
+				Old: "	num, err = strconv.Atoi(n)\n	if err != nil {\n		return 0, input, err\n	}", New: "	num, err = strconv.Atoi(n)\n	if err != nil {\n		panic(err)\n	}", Rule: "parser-no-panic"},
+			{Name: "parsebytes-unchecked-multiplication", File: "internal/ui/format.go",
+				Old: "	if hi != 0 || value < 0 {", New: "	if value < 0 {\n		_ = hi", Rule: "bitsize-agreement"},
+		},
+	})
+	register(&Property{
 		ID: "C45",
 		Explanation: "Decides the 'no entry for other node types' clause: (dumpable-filter) every send of a *data.Node on a channel in package dump — the only way a node reaches the tar/zip writers — is reachable only on an edge where that node's Type equals file, dir or symlink, at the top level of the dumped directory as well as for nested nodes (this rule reported the genuine defect in sendNodes, now fixed); (format-siblings) dumpNodeTar and dumpNodeZip distinguish exactly these three types. Not decided: entry order, permission bits, link targets and content under concurrent blob loading.",
 		Assumptions: commonAssumptions,
